@@ -12,6 +12,7 @@ EXPLANATION = (
     "C13.G3: both the Object and the Array arm recurse on every member/element (no break, no adaptor that skips items) and reach Ok only through that loop. "
     "C13.G5: every Err the guard constructs is reachable only through an 'equals reserved literal' edge; other errors are propagated from its own recursion. "
     "C13.G4 (informational): names the verifier's unpackers treat as structure vs. names the guard rejects."
+    " C13.G2/G3 also recognise a search over the reserved names (`NAMES.iter().find(|n| map.contains_key(n))`) and a walk over `map.values()`."
 )
 ASSUMPTIONS = [
     "string equality (`PartialEq` between String/&str) is exact (trusted base)",
